@@ -2,6 +2,7 @@ import WacModel.GraphToVal
 import WacModel.Spec.EncodeWF
 import WacProofs.Lemmas.GraphAbsOps2
 import WacProofs.Lemmas.GraphQueries
+import WacProofs.Lemmas.GraphAbsQueries
 /-
   Bridge C06 → C01: the graph value of a consistent state of the graph model is well formed
   in the sense of the encoder family (`Spec.WF`), so the encoding theorems apply to it.
@@ -359,5 +360,227 @@ theorem wf_toGraphVal {ctx : Ctx} (vc : ValCtx) {g : Graph} (h : Inv ctx g)
               simpa using heqn
             exact nodup_getElem_inj hnd' _ _ e1
           rw [← hji]; exact hjs
+
+/-! ### the graph value contains what the public queries report -/
+
+/-- `Node.aliasSource` of the graph value is `get_alias_source` -/
+theorem toNode_aliasSource {ctx : Ctx} (vc : ValCtx) {g : Graph} (h : Inv ctx g) (n : Nat) (nd : Node) :
+    getAliasSource ctx g n = .ok (toNode ctx vc g n nd).aliasSource := by
+  rw [getAliasSource_abs h]
+  congr 1
+  unfold Abs.getAliasSource Wac.Node.aliasSource
+  show _ = ((g.inEdges n).map fun e => (edgeW ctx g e, e.src)).findSome? _
+  have e1 : (abs g).aliasOf n = aliasOfE g.edges n := rfl
+  rw [e1]
+  unfold Graph.inEdges
+  -- walk the edge list
+  have key : ∀ es : List Edge, (∀ e ∈ es, e ∈ g.edges) →
+      (match aliasOfE es n with
+        | none => none
+        | some (s, j) =>
+          match (abs g).node s with
+          | none => none
+          | some snd =>
+            match ctx.kindExports snd.item with
+            | none => none
+            | some exps => match exps[j]? with
+              | none => none
+              | some (nm, _) => some (s, nm)) =
+      ((es.filter (fun e => e.dst == n)).map fun e => (edgeW ctx g e, e.src)).findSome?
+        (fun x => match x.1 with | .alias e => some (x.2, e) | _ => none) := by
+    intro es
+    induction es with
+    | nil => intro _; rfl
+    | cons e r ih =>
+      intro hsub
+      have ih' := ih (fun e' he' => hsub e' (List.mem_cons_of_mem _ he'))
+      by_cases hd : e.dst = n
+      · have hf : (e :: r).filter (fun e => e.dst == n) = e :: r.filter (fun e => e.dst == n) := by
+          simp [List.filter_cons, hd]
+        rw [hf, List.map_cons, List.findSome?_cons]
+        cases hk : e.kind with
+        | alias j =>
+          rw [aliasOfE_cons_alias hk, if_pos hd]
+          simp only [edgeW, hk]
+          -- the edge is well formed: the lookups succeed
+          obtain ⟨sn, hs, d, _, hkk⟩ := h.edges e (hsub e (List.mem_cons_self ..))
+          rw [hk] at hkk
+          simp only at hkk
+          obtain ⟨_, _, exps, hexps, q, hq', _⟩ := hkk
+          rw [Option.mem_def] at hs hexps hq'
+          rw [abs_node_some hs]
+          simp only
+          have : sn.abs.item = sn.item := rfl
+          rw [this, hexps]
+          simp only
+          rw [hq']
+          simp only [aliasName, hs, hexps, hq']
+        | arg j =>
+          rw [aliasOfE_cons_nonalias (by rw [hk]; rfl)]
+          simp only [edgeW, hk]
+          exact ih'
+        | dep =>
+          rw [aliasOfE_cons_nonalias (by rw [hk]; rfl)]
+          simp only [edgeW, hk]
+          exact ih'
+      · have hf : (e :: r).filter (fun e => e.dst == n) = r.filter (fun e => e.dst == n) := by
+          simp [List.filter_cons, hd]
+        rw [hf]
+        cases hk : e.kind with
+        | alias j => rw [aliasOfE_cons_alias hk, if_neg hd]; exact ih'
+        | arg j => rw [aliasOfE_cons_nonalias (by rw [hk]; rfl)]; exact ih'
+        | dep => rw [aliasOfE_cons_nonalias (by rw [hk]; rfl)]; exact ih'
+  exact key g.edges (fun _ he => he)
+
+theorem argsOf_nil_of_nonarg : ∀ (l : List (Wac.EdgeW × Nat)), (∀ x ∈ l, ∀ i nm, x.1 ≠ .arg i nm) → Wac.Node.argsOf l = []
+  | [], _ => rfl
+  | (w, s) :: r, h => by
+    have ih := argsOf_nil_of_nonarg r (fun x hx => h x (List.mem_cons_of_mem _ hx))
+    cases w with
+    | arg i nm => exact absurd rfl (h (.arg i nm, s) (List.mem_cons_self ..) i nm)
+    | alias e => simp only [Wac.Node.argsOf, ih]
+    | dep => simp only [Wac.Node.argsOf, ih]
+
+/-- `Node.args` of the graph value is `get_instantiation_arguments`, in the same order -/
+theorem toNode_args {ctx : Ctx} (vc : ValCtx) {g : Graph} (h : Inv ctx g) {n : Nat} {nd : Node}
+    (hnd : g.node? n = some nd) : getInstantiationArguments g n = .ok (toNode ctx vc g n nd).args := by
+  unfold Wac.Node.args
+  show _ = Except.ok (Wac.Node.argsOf ((g.inEdges n).map fun e => (edgeW ctx g e, e.src)))
+  cases hk : nd.kind with
+  | instantiation sat =>
+    have hinst : nd.isInst = true := by simp [Node.isInst, hk]
+    have h2 := (h.node hnd).2.1
+    rw [hk] at h2
+    simp only at h2
+    obtain ⟨_, _, pid, hpid, d, hpd, _⟩ := h2
+    rw [Option.mem_def] at hpid
+    have hok := toOption_mem.mp hpd
+    obtain ⟨sl, hsl, hslp⟩ := pkgOf_ok_slot hok
+    have hall : ∀ e ∈ g.inEdges n, ∃ j, e.kind = .arg j ∧ j < d.imports.length := by
+      intro e he
+      obtain ⟨he1, hdst⟩ := mem_inEdges.mp he
+      obtain ⟨s, _, dn, hdn, hkk⟩ := h.edges e he1
+      rw [hdst, Option.mem_def, hnd] at hdn
+      cases hdn
+      obtain ⟨j, hj, _⟩ := inEdges_of_inst h hnd hinst e he1 hdst
+      rw [hj] at hkk
+      simp only at hkk
+      obtain ⟨_, _, pid', hpid', pd', hpd', hlt⟩ := hkk
+      rw [Option.mem_def, hpid] at hpid'
+      cases hpid'
+      have : pd' = d := by
+        have h1 := toOption_mem.mp hpd'
+        rw [h1] at hok
+        exact Except.ok.inj hok
+      rw [this] at hlt
+      exact ⟨j, hj, hlt⟩
+    have hq : getInstantiationArguments g n = .ok ((g.inEdges n).filterMap (argEntry d)) := by
+      unfold getInstantiationArguments
+      rw [hnd]
+      simp only [hk, hpid, hsl, hslp]
+      exact argsGo_eq d (g.inEdges n) hall
+    rw [hq]
+    congr 1
+    have hinstDef : instDef g n = some d := by
+      unfold instDef
+      rw [hnd]; simp only [hpid, hsl, hslp]
+    have key : ∀ es : List Edge, (∀ e ∈ es, e ∈ g.inEdges n) →
+        es.filterMap (argEntry d) = Wac.Node.argsOf (es.map fun e => (edgeW ctx g e, e.src)) := by
+      intro es
+      induction es with
+      | nil => intro _; rfl
+      | cons e r ih =>
+        intro hsub
+        have ih' := ih (fun e' he' => hsub e' (List.mem_cons_of_mem _ he'))
+        have hein := hsub e (List.mem_cons_self ..)
+        obtain ⟨j, hj, hlt⟩ := hall e hein
+        obtain ⟨_, hdst⟩ := mem_inEdges.mp hein
+        rw [List.filterMap_cons, List.map_cons]
+        have h1 : argEntry d e = some ((d.imports[j]).1, e.src) := by
+          unfold argEntry
+          rw [hj]
+          simp only
+          rw [List.getElem?_eq_getElem hlt]
+          rfl
+        have h2 : edgeW ctx g e = .arg j (d.imports[j]).1 := by
+          unfold edgeW
+          rw [hj]
+          simp only
+          unfold argName
+          rw [hdst, hinstDef]
+          simp only
+          rw [List.getElem?_eq_getElem hlt]
+        rw [h1, h2]
+        simp only [Wac.Node.argsOf, ih']
+    exact key _ (fun _ he => he)
+  | definition ty =>
+    have hq : getInstantiationArguments g n = .ok [] := by
+      unfold getInstantiationArguments; rw [hnd]; simp only [hk]
+    rw [hq]
+    congr 1
+    symm
+    apply argsOf_nil_of_nonarg
+    intro x hx i nm hxe
+    obtain ⟨e, he, rfl⟩ := List.mem_map.mp hx
+    obtain ⟨he1, hdst⟩ := mem_inEdges.mp he
+    simp only at hxe
+    unfold edgeW at hxe
+    cases hke : e.kind with
+    | alias q => rw [hke] at hxe; cases hxe
+    | dep => rw [hke] at hxe; cases hxe
+    | arg j =>
+      obtain ⟨s, _, dn, hdn, hkk⟩ := h.edges e he1
+      rw [hdst, Option.mem_def, hnd] at hdn
+      cases hdn
+      rw [hke] at hkk
+      simp only at hkk
+      have := hkk.2.1
+      simp [Node.isInst, hk] at this
+  | «import» nm0 =>
+    have hq : getInstantiationArguments g n = .ok [] := by
+      unfold getInstantiationArguments; rw [hnd]; simp only [hk]
+    rw [hq]
+    congr 1
+    symm
+    apply argsOf_nil_of_nonarg
+    intro x hx i nm hxe
+    obtain ⟨e, he, rfl⟩ := List.mem_map.mp hx
+    obtain ⟨he1, hdst⟩ := mem_inEdges.mp he
+    simp only at hxe
+    unfold edgeW at hxe
+    cases hke : e.kind with
+    | alias q => rw [hke] at hxe; cases hxe
+    | dep => rw [hke] at hxe; cases hxe
+    | arg j =>
+      obtain ⟨s, _, dn, hdn, hkk⟩ := h.edges e he1
+      rw [hdst, Option.mem_def, hnd] at hdn
+      cases hdn
+      rw [hke] at hkk
+      simp only at hkk
+      have := hkk.2.1
+      simp [Node.isInst, hk] at this
+  | alias =>
+    have hq : getInstantiationArguments g n = .ok [] := by
+      unfold getInstantiationArguments; rw [hnd]; simp only [hk]
+    rw [hq]
+    congr 1
+    symm
+    apply argsOf_nil_of_nonarg
+    intro x hx i nm hxe
+    obtain ⟨e, he, rfl⟩ := List.mem_map.mp hx
+    obtain ⟨he1, hdst⟩ := mem_inEdges.mp he
+    simp only at hxe
+    unfold edgeW at hxe
+    cases hke : e.kind with
+    | alias q => rw [hke] at hxe; cases hxe
+    | dep => rw [hke] at hxe; cases hxe
+    | arg j =>
+      obtain ⟨s, _, dn, hdn, hkk⟩ := h.edges e he1
+      rw [hdst, Option.mem_def, hnd] at hdn
+      cases hdn
+      rw [hke] at hkk
+      simp only at hkk
+      have := hkk.2.1
+      simp [Node.isInst, hk] at this
 
 end Wac.Graph
